@@ -115,7 +115,13 @@ def run_impl(case, cfg=None):
             "scores": [rat(float(score_type.calculate_score(i))) for i in infos],
             "pep_cutoff": rat(float(getattr(score_type, "peptide_score_cutoff", float("nan")))) if hasattr(score_type, "peptide_score_cutoff") else None,
         })
-        return orig_comp(protein_groups, infos, score_type)
+        ret = orig_comp(protein_groups, infos, score_type)
+        try:
+            rec["comp"][-1]["out_groups"] = [list(g) for g in ret[0]]
+            rec["comp"][-1]["out_scores"] = [rat(float(x)) for x in ret[2]]
+        except Exception:
+            pass
+        return ret
 
     orig_report = ProteinGroupResults.__dict__["from_protein_groups"]
 
@@ -168,7 +174,8 @@ def run_impl(case, cfg=None):
     prots = sorted({p for _, _, pr in case["pil"] for p in pr})
     rec["razor_keys"] = [[p, hashlib.md5(p.encode("utf-8")).hexdigest()] for p in prots]
     out["passes"] = [
-        {"comp_groups": c["groups"], "comp_infos": c["infos"], "scores": c["scores"]} for c in rec["comp"]
+        {"comp_groups": c["groups"], "comp_infos": c["infos"], "scores": c["scores"],
+         "survivors": c.get("out_groups"), "survivor_scores": c.get("out_scores")} for c in rec["comp"]
     ]
     for k, r in enumerate(rec["report"]):
         if k < len(out["passes"]):
@@ -255,7 +262,7 @@ def model_view(case, resp, impl_out):
 def impl_view(case, impl_out):
     if "err" in impl_out:
         return {"err": impl_out["err"]}
-    return {"rows": impl_out["rows"], "passes": [{k: v for k, v in p.items() if k != "scores"} for p in impl_out["passes"]]}
+    return {"rows": impl_out["rows"], "passes": [{k: v for k, v in p.items() if k not in ("scores", "survivors", "survivor_scores")} for p in impl_out["passes"]]}
 
 
 def float_identities(case, resp, impl_out):
@@ -298,6 +305,18 @@ def oracle_c01(case, impl_out):
     if "ranked_groups" not in last:
         return "no ranking observed"
     groups, scores, qvals = last["ranked_groups"], [fl(s) for s in last["ranked_scores"]], [fl(q) for q in last["qvals"]]
+    # "the protein groups that survive competition are ranked": the ranking the q-values are computed on is what the
+    # competition returned - nothing withheld from the report may be taken out of it beforehand
+    surv = last.get("survivors")
+    if surv is not None:
+        if sorted(map(tuple, surv)) != sorted(map(tuple, groups)):
+            missing = [g for g in surv if g not in groups]
+            extra_ = [g for g in groups if g not in surv]
+            return (f"the ranking the q-values were computed on is not the set of groups that survived the competition: "
+                    f"survivors left out {missing}, groups added {extra_}")
+        ss = last.get("survivor_scores")
+        if ss is not None and sorted(zip(map(tuple, surv), [fl(x) for x in ss])) != sorted(zip(map(tuple, groups), scores)):
+            return "a ranked group does not carry the score it left the competition with"
     if any(a < b for a, b in zip(scores, scores[1:])):
         return "ranking is not in non-increasing score order"
     D = T = 0
@@ -384,6 +403,12 @@ def oracle_c06(case, impl_out):
         return "no ranking observed"
     from props import C06
 
+    # "the listed proteins are the members [of the group]": a ranked group is one of the groups the grouping made and
+    # the competition was handed, with all of its members
+    for g in last["ranked_groups"]:
+        if g not in last["comp_groups"]:
+            sup = [h for h in last["comp_groups"] if set(g) & set(h)]
+            return f"ranked group {g} is not one of the groups handed to the competition (overlapping: {sup})"
     c = {"groups": last["ranked_groups"], "infos": last["ranked_infos"], "scores": last["ranked_scores"], "qvals": last["qvals"],
          "cutoff": last["cutoff"], "keepAll": case["keepAll"]}
     o = C06.P().oracle(c, {"rows": impl_out["rows"]})
